@@ -1,0 +1,12 @@
+//go:build !verif
+// +build !verif
+
+package pbft
+
+// Trace hooks of the model-based checks in /verif; empty without the build tag "verif".
+
+func verifNop() {}
+
+func verifTraceMsg(cs *ConsensusState, mi msgInfo) func() { return verifNop }
+
+func verifTraceTimeout(cs *ConsensusState, ti timeoutInfo) func() { return verifNop }
